@@ -88,6 +88,9 @@ def run_replay(exe, case_lines, seqs, nproc, timeout):
         text = head + "\n".join("SEQ %d %d %s" % (i, len(t), " ".join(t)) for i, t in ch) + "\n"
         rc, lines, err = vlib.run_lines(exe, text, args=["1000"], timeout=timeout)
         done = [l for l in lines if l.startswith("DONE")]
+        if isinstance(rc, int) and rc < 0 and not any(l.startswith("BADINPUT") for l in lines):
+            # the replayer died inside the library (assertion, signal): never on a sound tree; what was reported before still counts
+            return [l for l in lines if l.startswith("FAIL")] + ["CRASH %d %s" % (-rc, err[-400:].replace("\n", " "))]
         if rc != 0 or not done or any(l.startswith("BADINPUT") for l in lines):
             raise Infra("expm_replay failed rc=%s: %s %s" % (rc, "\n".join(lines[-5:]), err[-2000:]))
         if int(done[0].split()[1]) != len(ch):
@@ -116,6 +119,8 @@ def report(v, lines, cases, seqs_by_idx):
                         "%s case %d (%s n=%d m=%s k=%s sa=%d sn=%d) at position %s of sequence %s: %s err=%s tol=%s branch=(%s,%s)" % (
                             how, c["id"], FAMNAME[c["f"]], c["n"], c["m"], c["k"], c["sa"], c["sn"], pos, toks, text, err, tol, m, s),
                         {"sequence": toks, "position": int(pos), "cases": [cases[int(t.lstrip("u"))] for t in toks]})
+        elif l.startswith("CRASH"):
+            v.violation("Exp/crash", "expm_replay died with signal %s while executing call sequences of the specification: %s" % (l.split()[1], l.split(" ", 2)[2][-300:]), None)
         elif l.startswith("XCHECK"):
             raise Infra("harness evaluation of the specification's formula disagrees with TLC's exact value: " + l)
 
